@@ -503,3 +503,80 @@ class FeedbackSkip(_Finish):
     args, ghost = super().inputs(b)
     args.update(reason=None)
     return args, ghost
+
+
+# ---------------------------------------------------------------------------
+# "Every completed trial is reported to the search algorithm exactly once":
+# _InMemoryBackend._feedback hands a reward to the shared algorithm exactly once
+# and only inside the study's feedback lock -- for every algorithm, whether or
+# not it overrides the feedback hook (`needs_feedback`), because the public
+# `feedback()` updates the algorithm's counters either way.
+
+@register
+class BackendFeedbackSerialized(Contract):
+  prop = 'C16'
+  target = f'{LB}:_InMemoryBackend._feedback'
+  variants = ('reward', 'no-reward')
+
+  def inputs(self, b):
+    self._flock = SObj(LockModel, {}, name='feedback_lock')
+    study = SObj(lb._InMemoryResult, {'_feedback_lock': self._flock, '_lock': SObj(LockModel, {}, name='lock')}, name='study')
+    self._algo = SObj(pg.geno.DNAGenerator, {'needs_feedback': b.bool('needs_feedback'),
+                                             'multi_objective': b.bool('multi_objective')}, name='algorithm')
+    s = SObj(lb._InMemoryBackend, {'_study': study, '_algorithm': self._algo,
+                                   '_metrics_to_optimize': SAny('metrics')}, name='self')
+    self._reward = b.int('reward') if self.variant == 'reward' else None
+    self._dna = SAny('dna')
+    trial = SObj(protocols.Trial, {}, name='trial')
+    return dict(self=s, dna=self._dna, trial=trial), {}
+
+  def setup_policy(self, policy):
+    _policy(policy, self)
+    me = self
+    policy.contracts['pyglove.core.tuning.protocols:Trial.get_reward_for_feedback'] = (
+        lambda interp, frame, args, kwargs: me._reward)
+
+    def feedback(interp, frame, args, kwargs):
+      interp.path.event('algo-feedback', 'feedback', ([interp.resolve(a) for a in args], list(interp.path.held)))
+      return None
+    for q in ('pyglove.core.geno.dna_generator:DNAGenerator.feedback', 'pyglove.core.geno.dna_generator:DNAGenerator._feedback'):
+      policy.contracts[q] = feedback
+    policy.handlers[('truth', SAny)] = None
+    policy.handlers.pop(('truth', SAny))
+
+  def trace_reported_exactly_once_inside_the_feedback_lock(self, events, outcome, interp, env):
+    if outcome[0] != 'return':
+      return False
+    fb = [e for e in events if e.kind == 'algo-feedback']
+    if self.variant == 'no-reward':
+      return not fb
+    if len(fb) != 1:
+      return False
+    args, held = fb[0].data
+    return (any(h is self._flock for h in held) and args[0] is self._algo
+            and args[-2] is self._dna and args[-1] is self._reward)
+
+  def small_models(self):
+    from pyvc.contracts import Model
+    yield Model({}, {})
+
+  def replay(self, obligation, m):
+    import threading
+    bad = []
+
+    class Probe(pg.geno.Random):
+      """Overrides the public feedback(); records whether the study's lock is held."""
+      def feedback(self, dna, reward):
+        held = [r._feedback_lock.locked() for r in lb._in_memory_results.values() if hasattr(r, '_feedback_lock')]
+        seen.append(any(held))
+        return super().feedback(dna, reward)
+    seen = []
+    algo = Probe(seed=1)
+    name = f'c16_replay_{id(algo)}'
+    for _, fb in pg.sample(pg.Dict(x=pg.oneof([1, 2, 3])), algo, num_examples=3, name=name):
+      fb(1.0)
+    if len(seen) != 3:
+      bad.append(f'3 completed trials, feedback() called {len(seen)} times')
+    if not all(seen):
+      bad.append(f'feedback() entered without the study feedback lock held: {seen}')
+    return dict(outcome='reproduced' if bad else 'not-reproduced', detail='; '.join(bad) or 'each reward reported once, under the lock')
